@@ -179,6 +179,9 @@ struct Sink {
     /// a sink of bounded capacity (`&mut [u8]`, `Cursor<&mut [u8]>` semantics): takes what fits and
     /// answers `Ok(0)` once it is full - the other way std sinks report "cannot take more"
     cap: Option<usize>,
+    /// answer vectored writes like `Vec` / `&mut [u8]` / sockets do (take from all buffers, possibly
+    /// stopping inside one) instead of std's default (first non-empty buffer only)
+    gather: bool,
 }
 impl Write for Sink {
     fn write(&mut self, b: &[u8]) -> io::Result<usize> {
@@ -192,6 +195,28 @@ impl Write for Sink {
             n = n.min(c - self.bytes.len().min(c));
         }
         self.bytes.extend_from_slice(&b[..n]);
+        Ok(n)
+    }
+    fn write_vectored(&mut self, bufs: &[io::IoSlice<'_>]) -> io::Result<usize> {
+        if !self.gather {
+            let b = bufs.iter().find(|b| !b.is_empty()).map_or(&[][..], |b| &**b);
+            return self.write(b);
+        }
+        let k = self.calls;
+        self.calls += 1;
+        if self.fail_at == Some(k) {
+            return Err(io::Error::new(io::ErrorKind::Other, "injected sink fault"));
+        }
+        let mut left = self.chunk.max(1);
+        if let Some(c) = self.cap { left = left.min(c - self.bytes.len().min(c)); }
+        let mut n = 0;
+        for b in bufs {
+            let t = b.len().min(left);
+            self.bytes.extend_from_slice(&b[..t]);
+            left -= t;
+            n += t;
+            if left == 0 { break; }
+        }
         Ok(n)
     }
     fn flush(&mut self) -> io::Result<()> {
@@ -353,22 +378,24 @@ pub fn run(o: &Opts) -> Report {
                 e.encode(&data, w, h, image_webp::ColorType::Rgba8).map_err(|e| format!("{e:?}"))
             })
         };
-        let mut base = Sink { bytes: vec![], calls: 0, fail_at: None, chunk: usize::MAX, cap: None };
+        let mut base = Sink { bytes: vec![], calls: 0, fail_at: None, chunk: usize::MAX, cap: None, gather: false };
         let _ = enc(&mut base);
-        for chunk in [1usize, 2, 3, 7] {
-            let mut s = Sink { bytes: vec![], calls: 0, fail_at: None, chunk, cap: None };
+        // every piece size with a gathering sink (a vectored write may stop inside any buffer), a few with std's default
+        let pieces: Vec<(usize, bool)> = [1usize, 2, 3, 7].iter().map(|&c| (c, false)).chain((1..=base.bytes.len() + 1).map(|c| (c, true))).collect();
+        for (chunk, gather) in pieces {
+            let mut s = Sink { bytes: vec![], calls: 0, fail_at: None, chunk, cap: None, gather };
             let r = enc(&mut s);
-            rep.case(&format!("encode {w}x{h} meta={meta} sinkchunk {chunk} data {}", hex(&data)), true);
+            rep.case(&format!("encode {w}x{h} meta={meta} sinkchunk {chunk} gather={gather} data {}", hex(&data)), true);
             rep.hit("encoder_sink_split");
             if !matches!(r, Ok(Ok(()))) || s.bytes != base.bytes {
-                rep.disagree(Disagreement { case: format!("encode {w}x{h} meta={meta} sinkchunk {chunk} data {}", hex(&data)), got: format!("{r:?} {} bytes", s.bytes.len()), expected: format!("Ok, {} identical bytes", base.bytes.len()), class: "violation", obligation: "C10: the encoder produces identical bytes however the sink splits writes".into(), detail: String::new() });
+                rep.disagree(Disagreement { case: format!("encode {w}x{h} meta={meta} sinkchunk {chunk} gather={gather} data {}", hex(&data)), got: format!("{r:?} {} bytes", s.bytes.len()), expected: format!("Ok, {} identical bytes", base.bytes.len()), class: "violation", obligation: "C10: the encoder produces identical bytes however the sink splits writes".into(), detail: String::new() });
             }
         }
         // a sink that is full after `cap` bytes (every capacity below the file length, and the exact one)
-        for cap in 0..=base.bytes.len() {
-            let mut s = Sink { bytes: vec![], calls: 0, fail_at: None, chunk: usize::MAX, cap: Some(cap) };
+        for (cap, gather) in (0..=base.bytes.len()).flat_map(|c| [(c, false), (c, true)]) {
+            let mut s = Sink { bytes: vec![], calls: 0, fail_at: None, chunk: usize::MAX, cap: Some(cap), gather };
             let r = enc(&mut s);
-            let case = format!("encode {w}x{h} meta={meta} sinkcapacity {cap} of {} data {}", base.bytes.len(), hex(&data));
+            let case = format!("encode {w}x{h} meta={meta} sinkcapacity {cap} of {} gather={gather} data {}", base.bytes.len(), hex(&data));
             rep.case(&case, true);
             rep.hit("encoder_sink_capacity");
             let ok = if cap < base.bytes.len() { matches!(&r, Ok(Err(e)) if e.starts_with("IoError")) } else { matches!(r, Ok(Ok(()))) && s.bytes == base.bytes };
@@ -377,7 +404,7 @@ pub fn run(o: &Opts) -> Report {
             }
         }
         for k in 0..base.calls {
-            let mut s = Sink { bytes: vec![], calls: 0, fail_at: Some(k), chunk: usize::MAX, cap: None };
+            let mut s = Sink { bytes: vec![], calls: 0, fail_at: Some(k), chunk: usize::MAX, cap: None, gather: k % 2 == 1 };
             let r = enc(&mut s);
             rep.case(&format!("encode {w}x{h} meta={meta} sinkfault {k} data {}", hex(&data)), true);
             rep.hit("encoder_sink_faults");
